@@ -1,5 +1,6 @@
 import IRModel.Props.C07
 import IRModel.Lemmas.EngineLemmas
+import IRModel.Props.RoundTrip
 /-!
 # C06 — a held key decodes as the same code on every frame (base decoder)
 
@@ -46,6 +47,48 @@ theorem C06_repeat_returns_held (t : Tables) (inst : Inst) (l : CodeV) (hl : ins
     rw [hl]
     simp only []
     rw [if_pos hne, hrlo, hrb, hparse]
+    simp
+  intro r
+  show (baseDecode t inst _).result = _ ∧ (baseDecode t inst _).isLast = _ ∧ (baseDecode t inst _).inst = _ ∧ (baseDecode t inst _).effects = _
+  rw [hall]
+  exact ⟨rfl, rfl, rfl, rfl⟩
+
+/-- the same for a repeat marker that ends in a frame period (NEC: `(16,-4,1,^108m)`): the frame `_build_repeat_packet`
+    emits — `_repeat_lead_in ++ [mark, −(period − what precedes)]` — is answered with the held code -/
+theorem C06_repeat_returns_held_period (t : Tables) (inst : Inst) (l : CodeV) (hl : inst.last = some l)
+    (htol : inst.tol.ok) (mo x : Int) (hrlo : t.repeatLeadOut = [mo, x]) (hrb : t.repeatBursts = [])
+    (hmo : mo > 0) (hx : x > 0) (hli : ∀ e ∈ t.repeatLeadIn, e ≠ 0)
+    (hfit : sumAbs (t.repeatLeadIn ++ [mo]) < x) :
+    let r := baseDecode t inst (t.repeatLeadIn ++ [mo, sumAbs (t.repeatLeadIn ++ [mo]) - x])
+    r.result = .ok l ∧ r.isLast = true ∧ r.inst = inst ∧ r.effects = [] := by
+  obtain ⟨g, hg⟩ : ∃ g, g = sumAbs (t.repeatLeadIn ++ [mo]) - x := ⟨_, rfl⟩
+  rw [← hg]
+  have hgneg : g < 0 := by omega
+  have hparse : ∃ p, parseWith inst.tol t.repeatLeadIn [mo, x] [] (t.repeatLeadIn ++ [mo, g]) = .ok p := by
+    unfold parseWith
+    have hdl : (t.repeatLeadIn ++ [mo, g]).dropLast = t.repeatLeadIn ++ [mo] := IRModel.Props.RoundTrip.dropLast_two _ _ _
+    have hp : periodCheck inst.tol [mo, x] (t.repeatLeadIn ++ [mo, g]) = .ok () := by
+      unfold periodCheck
+      simp only [List.getLast?_cons_cons, List.getLast?_singleton, hx, if_true]
+      rw [IRModel.Props.RoundTrip.getLast?_two, hdl]
+      simp only []
+      have : -(x - sumAbs (t.repeatLeadIn ++ [mo])) = g := by omega
+      rw [this, isMatch_self inst.tol htol g (by omega)]
+      rfl
+    have hin := leadInLoop_exact inst.tol htol [] t.repeatLeadIn [mo, g] [] hli
+    have hout := leadOutLoop_period inst.tol htol [] (sumAbs (t.repeatLeadIn ++ [mo])) mo x (by intro p hp; cases hp) hmo hx [] g (by omega) hgneg
+    simp only [List.nil_append] at hin hout
+    rw [hp, hdl]
+    simp only [bind, Except.bind, hin, List.length_cons, List.length_nil, hout, List.append_nil,
+      classifyAll, pairUp, pairsToBits, pure, Except.pure]
+    simp
+  obtain ⟨p, hp⟩ := hparse
+  have hne : (!t.repeatLeadIn.isEmpty || !t.repeatLeadOut.isEmpty) = true := by rw [hrlo]; simp
+  have hall : baseDecode t inst (t.repeatLeadIn ++ [mo, g]) = { result := .ok l, inst := inst, isLast := true } := by
+    unfold baseDecode
+    rw [hl]
+    simp only []
+    rw [if_pos hne, hrlo, hrb, hp]
     simp
   intro r
   show (baseDecode t inst _).result = _ ∧ (baseDecode t inst _).isLast = _ ∧ (baseDecode t inst _).inst = _ ∧ (baseDecode t inst _).effects = _
